@@ -30,6 +30,31 @@ impl MessageBody for Body {
     }
 }
 
+/// a zero-sized payload type with a destructor (token / guard): creations and drops are counted by the registry
+#[derive(Debug)]
+struct ZstBody;
+impl ZstBody {
+    fn create() -> Self {
+        tracked::anon_created("zero-sized-message-body");
+        ZstBody
+    }
+}
+impl Clone for ZstBody {
+    fn clone(&self) -> Self {
+        ZstBody::create()
+    }
+}
+impl Drop for ZstBody {
+    fn drop(&mut self) {
+        tracked::anon_dropped("zero-sized-message-body");
+    }
+}
+impl MessageBody for ZstBody {
+    fn byte_len(&self) -> usize {
+        8
+    }
+}
+
 #[derive(Debug, Clone, Copy, Serialize, Deserialize, PartialEq)]
 pub enum TaskKind {
     /// sleeps in a loop forever
@@ -137,8 +162,13 @@ impl Module for Node {
     }
 
     fn at_sim_start(&mut self, _: usize) {
-        for t in &self.plan.self_msgs {
-            schedule_in(Message::default().kind(K_SELF).with_content(Body(Tracked::new("self-message-body"), 8)), Duration::from_nanos(*t));
+        for (i, t) in self.plan.self_msgs.iter().enumerate() {
+            if i % 2 == 1 {
+                // every second self message carries a zero-sized payload that has a destructor
+                schedule_in(Message::default().kind(K_SELF).with_content(ZstBody::create()), Duration::from_nanos(*t));
+            } else {
+                schedule_in(Message::default().kind(K_SELF).with_content(Body(Tracked::new("self-message-body"), 8)), Duration::from_nanos(*t));
+            }
         }
         if self.ring {
             for size in &self.plan.burst {
@@ -645,6 +675,7 @@ pub fn cmd(args: &Args) -> Report {
             rep.count("tokens_created", summary.created);
             rep.count("tokens_dropped_exactly_once", summary.dropped);
             rep.count("remaining_events_returned", o.remaining as u64);
+            rep.count("self_messages_with_zero_sized_payload_planned", case.mods.iter().map(|m| (m.self_msgs.len() / 2) as u64).sum());
             let key = match case.stop {
                 Stop::BuilderDropped => "stops_builder_dropped",
                 Stop::RuntimeDroppedBeforeRun => "stops_runtime_dropped_before_run",
